@@ -336,6 +336,10 @@ def parse_const(s):
 		if t.startswith("{closure@"):
 			return Closure(t)
 		return FnItem(strip_generics(t))
+	m = re.match(r"^(?:\w+::)*(\w+)::([A-Z][A-Z0-9_]*)$", s)
+	if m:
+		# associated constant (KindSet::ARRAY ...): an opaque named value
+		return Agg("const", m.group(1) + "::" + m.group(2), ())
 	raise MirError("const? " + s)
 
 
@@ -777,8 +781,8 @@ class Interp:
 				if len(caps) > 1:
 					named = [("self%d" % k, v) for k, v in enumerate(caps)]
 			order = self.struct_fields.get(ty)
-			if order:
-				d = dict(named)
+			d = dict(named)
+			if order and set(order) == set(d):
 				fields = [d[k] for k in order]
 			else:
 				fields = [v for _, v in named]
